@@ -462,6 +462,35 @@ async fn read_op(ctx: &ConnCtx, r: &mut Reader, i: &str, op: &Op) -> Outcome {
                     }
                 }
             }
+            "collect_rpfm" => {
+                // read frames until `ms` of virtual time have passed (or EOF/error); one record per frame
+                let deadline = tokio::time::Instant::now() + Duration::from_millis(op.ms);
+                let mut count = 0usize;
+                loop {
+                    let mut got = None;
+                    if r.buf.len() >= 12 {
+                        let al = u16::from_be_bytes([r.buf[8], r.buf[9]]) as usize;
+                        let bl = u16::from_be_bytes([r.buf[10], r.buf[11]]) as usize;
+                        if r.buf.len() >= 12 + al + bl {
+                            got = Some(r.buf.drain(..12 + al + bl).collect::<Vec<u8>>());
+                        }
+                    }
+                    if let Some(f) = got {
+                        let mut h = Fnv::new();
+                        h.update(&f);
+                        let keepn = if f.len() <= 512 { f.len() } else { 320 };
+                        ctx.sh.record(json!({"actor": ctx.actor, "conn": ctx.conn, "rpfm": "recv", "len": f.len(), "hash": h.hex(), "hex": hex(&f[..keepn]), "t": sim::now_us(), "s": sim::stamp()}));
+                        count += 1;
+                        continue;
+                    }
+                    match tokio::time::timeout_at(deadline, r.fill()).await {
+                        Err(_) => return (format!("ok"), count.to_string().into_bytes()),
+                        Ok(Ok(0)) => return (format!("eof@{}", r.buf.len()), count.to_string().into_bytes()),
+                        Ok(Ok(_)) => {}
+                        Ok(Err(e)) => return (io_res(&e), count.to_string().into_bytes()),
+                    }
+                }
+            }
             "recv_eof" => {
                 // read until EOF or error; report how much came
                 let mut got: Vec<u8> = r.buf.drain(..).collect();
@@ -612,7 +641,7 @@ async fn write_op(ctx: &ConnCtx, w: &mut Writer, i: &str, op: &Op) -> Outcome {
 }
 
 fn is_read_op(o: &str) -> bool {
-    matches!(o, "recv_n" | "recv_until" | "recv_http_head" | "recv_socks5_reply" | "recv_socks4_request" | "recv_rpfm" | "recv_eof" | "expect")
+    matches!(o, "recv_n" | "recv_until" | "recv_http_head" | "recv_socks5_reply" | "recv_socks4_request" | "recv_rpfm" | "collect_rpfm" | "recv_eof" | "expect")
 }
 fn is_write_op(o: &str) -> bool {
     matches!(o, "send" | "shutdown")
